@@ -129,7 +129,8 @@ def check(case):
             if again != out:
                 i = next((i for i, (a, b) in enumerate(zip(again, out)) if a != b), min(len(again), len(out)))
                 import re
-                sq = lambda t: re.sub(r';[^\S\r\n]+', ';', t)
+                # blanks directly behind a statement separator (';' or the batch separator GO)
+                sq = lambda t: re.sub(r'(;|\bGO)[^\S\r\n]+', r'\1', t, flags=re.IGNORECASE)
                 sig = 'trunc-hazard' if haz_t else ('eol-normalised' if lexmatch.norm_comment(out) == lexmatch.norm_comment(again) else
                                                     'blanks-after-semicolon' if sq(out) == sq(again) and opts.get('strip_comments') else 'changed')
                 res.fail('idempotent', sig, 'second application changes the text at %d: %r -> %r; options %r' % (i, out[max(0, i - 20):i + 20], again[max(0, i - 20):i + 20], opts))
